@@ -318,9 +318,9 @@ def make_inputs(tier, seed):
     yield from deep_chains()
     yield from interleaved_trees(rng, 60 if tier == "quick" else 800)
     if tier == "quick":
-        for _ in range(1200):
+        for _ in range(900):
             yield rand_tree(rng)
-        yield from systematic(stride=5, offset=seed)
+        yield from systematic(stride=7, offset=seed)
         yield from chains(rng, 5, 3)
     else:
         for _ in range(15000):
